@@ -61,6 +61,13 @@ func init() {
 	pt.stream = 160 // short stream, replayed often: n-grams recur at shifted positions
 	pt.badCfgPct = 0
 	suites["p-reset"] = pSuite(pt, []string{"p.twin.fresh"})
+	// suffix-array parsers with buffers of several bitset words (> 128 bytes): stale words of the
+	// bitset, a suffix array kept over Reset, edges kept over Reset only show with larger fills
+	psa := pt.withKinds("GSAP", "OSAP", "GSAP")
+	psa.minBuf, psa.maxBuf = 130, 330
+	psa.stream = 900
+	psa.maxOps = 30
+	suites["p-reset-sa"] = pSuite(psa, []string{"p.twin.fresh"})
 	ps := pt
 	ps.staleBias = true
 	ps.wShrink = 3
